@@ -524,17 +524,34 @@ _COMPS = (ast.ListComp, ast.SetComp, ast.DictComp, ast.GeneratorExp)
 _FUNCS = (ast.FunctionDef, ast.AsyncFunctionDef, ast.Lambda)
 
 
-def _is_num(e, kinds=(int, float, complex)):
-    """statically typed number for Cython: numeric literal or arithmetic / walrus over such"""
+_NUMTYPES_MEMO = {}
+
+
+def _numtypes(e):
+    """literal types occurring in a statically numeric expression (numeric literal, or arithmetic / walrus over such), else
+    None; linear in the size of e (memo per _src_features call: operator chains are hundreds of levels deep)"""
+    k = id(e)
+    if k in _NUMTYPES_MEMO:
+        return _NUMTYPES_MEMO[k]
+    r = None
     if isinstance(e, ast.Constant):
-        return type(e.value) in kinds
-    if isinstance(e, ast.UnaryOp) and isinstance(e.op, (ast.UAdd, ast.USub, ast.Invert)):
-        return _is_num(e.operand, kinds)
-    if isinstance(e, ast.BinOp):
-        return (_is_num(e.left, kinds) and _is_num(e.right)) or (_is_num(e.left) and _is_num(e.right, kinds))
-    if isinstance(e, ast.NamedExpr):
-        return _is_num(e.value, kinds)
-    return False
+        r = frozenset([type(e.value)]) if type(e.value) in (int, float, complex) else None
+    elif isinstance(e, ast.UnaryOp) and isinstance(e.op, (ast.UAdd, ast.USub, ast.Invert)):
+        r = _numtypes(e.operand)
+    elif isinstance(e, ast.BinOp):
+        x = _numtypes(e.left)
+        y = _numtypes(e.right) if x is not None else None
+        r = (x | y) if y is not None else None
+    elif isinstance(e, ast.NamedExpr):
+        r = _numtypes(e.value)
+    _NUMTYPES_MEMO[k] = r
+    return r
+
+
+def _is_num(e, kinds=(int, float, complex)):
+    """statically typed number for Cython with a literal of one of the given kinds in it"""
+    t = _numtypes(e)
+    return t is not None and any(k in t for k in kinds)
 
 
 def _is_c_literal(e):
@@ -633,6 +650,7 @@ def _ast_families(src, tree):
             yield n.guard
 
     bound_names = None
+    src_lines = src.split("\n")
     for n in ast.walk(tree):
         if isinstance(n, ast.match_case):
             for k in n.body:
@@ -674,12 +692,17 @@ def _ast_families(src, tree):
             parts = [sl] if isinstance(sl, ast.Slice) else [x for x in getattr(sl, "elts", []) if isinstance(x, ast.Slice)] if isinstance(sl, ast.Tuple) else []
             for p in parts:
                 for b in (p.lower, p.upper):
-                    if isinstance(b, ast.Name) and b.id in _BUILTIN_TYPE_NAMES and isinstance(sl, ast.Slice) and p.step is None:
-                        f.add("slice_bound_is_builtin_type_name")
+                    if (isinstance(b, ast.Name) and b.id in _BUILTIN_TYPE_NAMES or isinstance(b, ast.Constant) and b.value is Ellipsis) \
+                            and isinstance(sl, ast.Slice) and p.step is None:
+                        f.add("slice_bound_type_name_or_ellipsis")
                     if b is not None and _is_num(b, (float, complex)):
                         f.add("slice_bound_float_literal")
                     if isinstance(b, ast.Tuple) and isinstance(sl, ast.Slice):
                         f.add("slice_bound_tuple_literal")
+            for w in ([sl] if isinstance(sl, ast.NamedExpr) else [x for x in sl.elts if isinstance(x, ast.NamedExpr)] if isinstance(sl, ast.Tuple) else []):
+                before = (src_lines[w.lineno - 1][:w.col_offset] if w.lineno <= len(src_lines) else "").rstrip()
+                if not before.endswith("("):
+                    f.add("unparenthesized_walrus_in_subscript")
             if isinstance(sl, ast.Starred) or (isinstance(sl, ast.Tuple) and any(isinstance(x, ast.Starred) for x in sl.elts)):
                 f.add("star_in_subscript")
         if isinstance(n, ast.BoolOp) and any(isinstance(v, ast.Tuple) and v.elts and all(_is_num(x) for x in v.elts) for v in n.values):
@@ -757,6 +780,32 @@ def _ast_families(src, tree):
     return f
 
 
+def _parse_salvaging(src, rounds=12):
+    """ast of src; for a text CPython rejects (mutants, .pyx) the top-level statement that holds the syntax error is blanked
+    out and the parse retried, so that the input families of the remaining statements are still recognised"""
+    lines = src.split("\n")
+    for _ in range(rounds):
+        try:
+            with warnings.catch_warnings():
+                warnings.simplefilter("ignore")
+                return ast.parse("\n".join(lines))
+        except SyntaxError as e:
+            ln = min(max((e.lineno or 1), 1), len(lines))
+            top = lambda t: bool(t) and t[0] not in " \t#)]}" and not t.startswith(("else", "elif", "except", "finally", "case"))
+            a = ln - 1
+            while a > 0 and not top(lines[a]):
+                a -= 1
+            b = ln
+            while b < len(lines) and not top(lines[b]):
+                b += 1
+            if all(not t.strip() or t.strip() == "pass" for t in lines[a:b]):
+                return None
+            lines[a:b] = ["pass"] + [""] * (b - a - 1)
+        except Exception:
+            return None
+    return None
+
+
 def _src_features(src):
     f = set()
     if re.search(r"(?<![\w.])[1-9][0-9_]{4300,}(?![\w.])", src) and any(len(x.replace("_", "")) > 4300 for x in re.findall(r"(?<![\w.])[1-9][0-9_]{4300,}(?![\w.jJeE])", src)):
@@ -779,16 +828,15 @@ def _src_features(src):
             f.add("wrong_scope_header_directive")
     if re.search(r"\bstr\s+\w+\b[^\n]*\)\s*:", src) and re.search(r"^\s*\w+\[[^\]:]+\]\s*=[^=]", src, re.M):
         f.add("typed_str_item_assignment")      # .pyx only: 'def f(str s, int i, v): s[i] = v'
-    try:
-        with warnings.catch_warnings():
-            warnings.simplefilter("ignore")
-            tree = ast.parse(src)
-    except Exception:
+    tree = _parse_salvaging(src)
+    if tree is None:
         return f
+    _NUMTYPES_MEMO.clear()
     try:
         f |= _ast_families(src, tree)
     except RecursionError:
         pass
+    _NUMTYPES_MEMO.clear()
     return f
 
 
@@ -826,7 +874,7 @@ FAMILY_RULES = [
     ("except_star_outside_function", "c_error", r"__pyx_skip_add_traceback.? undeclared", "except_star_outside_function"),
     ("except_star_empty_tuple", "c_error", r"expected expression before .\). token", "except_star_empty_tuple"),
     ("imag_literal_overflows_to_inf", "c_error", r"^.inf.? undeclared", "imag_literal_overflows_to_inf"),
-    ("slice_bound_is_builtin_type_name", "c_error", r"lvalue required as unary .&. operand", "slice_bound_is_builtin_type_name"),
+    ("slice_bound_type_name_or_ellipsis", "c_error", r"lvalue required as unary .&. operand", "slice_bound_type_name_or_ellipsis"),
     ("slice_bound_tuple_literal", "c_error", r"incompatible type for argument . of .__Pyx_PyObject_(Get|Set|Del)Slice", "slice_bound_tuple_literal"),
     ("bool_operand_numeric_tuple_literal", "c_error", r"unknown type name .__pyx_ctuple_", "bool_operand_numeric_tuple_literal"),
     ("genexpr_over_attribute_of_builtin_value", "c_error", r"__pyx_genexpr_arg_\d+.? declared as a function", "genexpr_over_attribute_of_builtin_value"),
@@ -836,6 +884,7 @@ FAMILY_RULES = [
      "nested_fstring_with_doubled_braces"),
     ("await_in_nested_def_header", "positioned", r"^'await' not (supported here|allowed in generators)", "await_in_nested_def_header"),
     ("star_in_subscript", "positioned", r"^starred expression is not allowed here", "star_in_subscript"),
+    ("unparenthesized_walrus_in_subscript", "positioned", r"^invalid syntax: assignment expression not allowed in this context", "unparenthesized_walrus_in_subscript"),
     ("starred_in_except_tuple", "positioned", r"^starred expression is not allowed here", "starred_in_except_tuple"),
     ("complex_literal_truth_test", "positioned", r"^Type 'double complex' not acceptable as a boolean", "complex_literal_truth_test"),
     ("condexpr_number_vs_tuple_literal", "positioned", r"^Incompatible types in conditional expression", "condexpr_number_vs_tuple_literal"),
@@ -967,7 +1016,9 @@ FAMILY_PROBES = [
     ("exstar_module", ".py", "import os\ntry:\n    os.x\nexcept* ValueError:\n    pass\n", "except_star_outside_function"),
     ("exstar_empty", ".py", "def f(g):\n    try:\n        g()\n    except* ():\n        pass\n", "except_star_empty_tuple"),
     ("imag_inf", ".py", "x = 1e400j\n", "imag_literal_overflows_to_inf"),
-    ("slice_type_name", ".py", "def f(x):\n    return x[int:]\n", "slice_bound_is_builtin_type_name"),
+    ("slice_type_name", ".py", "def f(x):\n    return x[int:]\n", "slice_bound_type_name_or_ellipsis"),
+    ("slice_ellipsis", ".py", "def f(x):\n    return x[...:...]\n", "slice_bound_type_name_or_ellipsis"),
+    ("walrus_subscript", ".py", "def f(x):\n    return x[i:=0], i\n", "unparenthesized_walrus_in_subscript"),
     ("slice_tuple", ".py", "def f(x):\n    return x[(1, 2):]\n", "slice_bound_tuple_literal"),
     ("bool_tuple", ".py", "def f(x):\n    if x or (1,):\n        return 1\n", "bool_operand_numeric_tuple_literal"),
     ("genexpr_attr", ".py", "x = (i for i in 'a'.join)\n", "genexpr_over_attribute_of_builtin_value"),
@@ -1071,7 +1122,39 @@ def run_programs(ctx):
     for pid, ext, src, forced in probes():
         progs.append({"id": "p_" + pid, "ext": ext, "src": src})
         meta["p_" + pid] = ("probe", ext, src, forced)
+    # systematic token / grammar interaction snippets: compiled as grouped modules, a failing group is bisected below
+    tgroups, trejected = C43_gen.token_programs(7 if quick else 40, all_spellings=not quick, group=40)
+    for lab, s_, why in trejected:
+        ctx.note("token snippet %s %r is rejected by CPython (%s); skipped" % (lab, s_, why))
+    for i, (lab, src, singles) in enumerate(tgroups):
+        progs.append({"id": "t%d" % i, "ext": ".py", "src": src})
     res = compile_batch(ctx, progs, jobs=6 if quick else 10)
+    tprogs = [p for p in progs if p["id"][0] == "t" and p["id"][1:].isdigit()]
+    progs = [p for p in progs if p not in tprogs]
+    retry = []
+    for p, (lab, src, singles) in zip(tprogs, tgroups):
+        vd = verdict(res[p["id"]])
+        if vd[0] == "ok" or (vd[0] == "positioned" and all(allowlisted(e["msg"].splitlines()[0]) for e in res[p["id"]]["errors"] if e["msg"].strip())):
+            for slab, ssrc in singles:
+                ctx.case("token_interaction_py_ok", {"ext": ".py", "src": ssrc[len(C43_gen.TOKEN_PRELUDE):][:200]}, sig=("tok_prog", slab))
+            if vd[0] != "ok":
+                ctx.note("token group %s stops at an allowlisted error (%s): later phases not reached" % (lab, vd[1]))
+        else:
+            retry.append((p, lab, src, singles))
+    if retry:
+        sprogs = []
+        for p, lab, src, singles in retry:
+            for j, (slab, ssrc) in enumerate(singles):
+                sprogs.append({"id": "%s_%d" % (p["id"], j), "ext": ".py", "src": ssrc, "label": slab})
+        sres = compile_batch(ctx, [{k_: v_ for k_, v_ in q.items() if k_ != "label"} for q in sprogs], jobs=6 if quick else 10)
+        for p, lab, src, singles in retry:
+            found = False
+            for q in [q for q in sprogs if q["id"].startswith(p["id"] + "_")]:
+                ctx.case("token_interaction_py_ok", {"ext": ".py", "src": q["src"][len(C43_gen.TOKEN_PRELUDE):][:200]}, sig=("tok_prog", q["label"]))
+                if judge(ctx, q["src"], ".py", sres[q["id"]], True):
+                    found = True
+            if not found:       # only the combination fails: report the group as it is
+                judge(ctx, src, ".py", res[p["id"]], True)
     hist = {}
     unknown = {}
     for p in progs:
